@@ -31,7 +31,8 @@ def draw_cfg(rng):
     cfg = e1.draw_cfg(rng, PROFILE)
     cfg['ckpt'] = True
     cfg['cost'] = 0.0
-    cfg['cap_rows'] = rng.choice([600, 900, 1500])
+    # bounded number of batches (each batch is ~30 file operations)
+    cfg['cap_rows'] = cfg['sampler']['n_batch'] * rng.choice([40, 60, 90])
     cfg['run']['n_eff'] = rng.choice([0, 30, 60])
     cfg['run']['f_live'] = rng.choice([0.1, 0.2, 0.3])
     if cfg['sampler']['enlarge_per_dim'] == 100.0:
